@@ -47,7 +47,25 @@ def sequence(kind, n, rng):
     raise ValueError(kind)
 
 
-def channels(ctx, fmt, n, seed, sw, other_bits, start_ms=None, third_const=None, want_reader=False, flagged=None):
+def channels(ctx, fmt, n, seed, sw, other_bits, start_ms=None, third_const=None, want_reader=False, flagged=None, first_sw=None):
+    if first_sw is not None:
+        # the reader object has ALREADY read and calibrated another file of the same pass (same lines, times, flags and
+        # counts, another channel-select sequence) before it reads this one: a batch job re-using one configured reader
+        import io
+        pb0 = filegen.PassBuilder(ctx, fmt, n, random.Random(repr((seed, fmt, n))), start_ms=start_ms)
+        if flagged is not None:
+            pb0.quality[np.asarray(flagged, dtype=bool)] = 1 << 28
+        pb0.samples[:, 2::5] = pb0.nprng.integers(60, 1000, size=pb0.samples[:, 2::5].shape)
+        pb1 = filegen.PassBuilder(ctx, fmt, n, random.Random(repr((seed, fmt, n))), start_ms=start_ms)
+        pb1.quality[:] = pb0.quality
+        pb1.samples[:] = pb0.samples
+        pb0.bitfield = ((other_bits << 2) | first_sw).astype(np.uint16)
+        pb1.bitfield = ((other_bits << 2) | sw).astype(np.uint16)
+        d0, d1 = pb0.tobytes(), pb1.tobytes()
+        r = filegen.make_reader(ctx, fmt, data=d0, name=pb0.dsname)
+        r.get_calibrated_channels()
+        r.read(pb1.dsname, fileobj=io.BytesIO(d1))
+        return np.array(r.get_calibrated_channels()), pb1
     pb = filegen.PassBuilder(ctx, fmt, n, random.Random(repr((seed, fmt, n))), start_ms=start_ms)
     if flagged is not None:
         pb.quality[np.asarray(flagged, dtype=bool)] = 1 << 28       # insufficient calibration data: the line is blanked
@@ -95,10 +113,14 @@ def check_klm(ctx, fmt, n, kind, seed, drv, start_ms=None):
     flagged = np.zeros(n, dtype=bool)
     if seed % 2 == 1 and n > 3 and start_ms is None:      # (inside a scan-motor interval a blanked line changes its neighbours' 3x3 statistics)
         flagged[rng.randrange(n)] = True
-    ch, pb = channels(ctx, fmt, n, seed, sw, other, start_ms, flagged=flagged)
+    first_sw = None
+    if seed % 3 == 0 and start_ms is None:
+        first_sw = rng.choice([sw[::-1].copy(), np.ones(n, dtype=int), np.zeros(n, dtype=int), (sw + 1) % 3])
+    ch, pb = channels(ctx, fmt, n, seed, sw, other, start_ms, flagged=flagged, first_sw=first_sw)
     ref_a, _ = channels(ctx, fmt, n, seed, np.ones(n, dtype=int), other, start_ms)
     ref_b, _ = channels(ctx, fmt, n, seed, np.zeros(n, dtype=int), other, start_ms)
-    payload = {"fmt": fmt, "n": n, "kind": kind, "seed": seed, "select": sw.tolist(), "start_ms": start_ms}
+    payload = {"fmt": fmt, "n": n, "kind": kind, "seed": seed, "select": sw.tolist(), "start_ms": start_ms,
+               "reader_read_before_with_select": None if first_sw is None else np.asarray(first_sw).tolist()}
     if ch.shape[-1] != 6:
         ctx.violation("%s: %d channel slots instead of 6" % (fmt, ch.shape[-1]), payload, cls="klm-slots")
         return
